@@ -27,6 +27,8 @@ def random_script(rng, i):
     nf = 0
     for _ in range(rng.randint(12, 45)):
         x = rng.random()
+        if conn and rng.random() < 0.05:
+            ops.append(["stale_disconnect", rng.choice(sorted(conn))])
         if persistent and x < 0.10:
             # dial progress / reconnection timer of persistent peers
             ops.append(rng.choice([["attempted", rng.choice(persistent)], ["wake", rng.choice([4000, 70000])]]))
@@ -69,6 +71,8 @@ def scripted():
         {"run": "s-persistent", "peers": 2, "repos": 2, "capacity": 1, "persistent": [1], "ops": [["fetch", 1, 1], ["attempted", 1], ["fetch", 1, 1], ["connect", 1],
          ["fetch", 1, 1], ["connect", 2], ["fetch", 2, 2], ["disconnect", 1], ["fetch", 1, 1], ["fetch", 2, 1], ["wake", 70000], ["fetch", 1, 1], ["attempted", 1],
          ["fetch", 1, 1], ["fetch", 2, 1], ["connect", 1], ["done", 1, "ok"], ["fetch", 1, 1], ["done", 2, "ok"], ["idle"], ["done", 3, "ok"]]},
+        {"run": "s-conflict-teardown", "peers": 2, "repos": 1, "capacity": 1, "ops": [["connect", 1], ["connect", 2], ["fetch", 1, 1], ["stale_disconnect", 1],
+         ["fetch", 1, 2], ["fetch", 1, 1], ["done", 1, "ok"], ["idle"], ["done", 2, "ok"]]},
         {"run": "s-queue", "peers": 2, "repos": 2, "capacity": 1, "ops": [["connect", 1], ["connect", 2], ["fetch", 1, 1], ["fetch", 2, 1], ["fetch", 1, 2],
          ["fetch", 2, 2], ["done", 1, "ok"], ["done", 2, "timeout"], ["idle"], ["done", 3, "ok"], ["done", 4, "ok"]]},
     ]
@@ -84,7 +88,7 @@ def run(ctx):
     if res.violated:
         ctx.violation(f"model:{res.violated}", "the design model violates the invariant", {"tlc": res.error_trace[:120]})
         return ctx.finish(rule=RULE)
-    ctx.require_coverage(res, ["Attempt", "Connect", "Disconnect", "Retry", "FetchCmd", "AnnFetch", "Idle"])
+    ctx.require_coverage(res, ["Attempt", "Connect", "Disconnect", "StaleDisconnect", "Retry", "FetchCmd", "AnnFetch", "Idle"])
     for name, cfgd, inv in (("late-same-peer", "MCFetchSched_dev1.cfg", "C16_Attribution"), ("late-any-peer", "MCFetchSched_dev2.cfg", "C16_OneLive")):
         dev = ctx.tlc("MCFetchSched", cfgd, workers=8, timeout=900, coverage=False, count=False, heap="8g",
                       label=f"sanity: deviation {name} must violate {inv}")
@@ -99,12 +103,12 @@ def run(ctx):
         vlib.log(f"design-model liveness property violated (informational, beyond C16): {live.violated}")
     behaviours = [c["ops"] for c in res.cases if c.get("ops")]
     rng = random.Random(ctx.seed)
-    limit = 80000 if thorough else 3000
+    limit = 15000 if thorough else 3000
     sampled = len(behaviours) > limit
     if sampled:
         behaviours = rng.sample(behaviours, limit)
     scripts = scripted() + [model_to_script(i, b) for i, b in enumerate(behaviours)]
-    nrand = 6000 if thorough else 500
+    nrand = 3000 if thorough else 500
     rng = random.Random(ctx.seed * 104729 + 3)
     scripts += [random_script(rng, i) for i in range(nrand)]
     nshards = 12
